@@ -16,7 +16,7 @@ import (
 
 // c43Repo: Repository.LoadBlobsFromPack on a real repository (tracing store with read faults); the fallback is the
 // real LoadBlob.  The repository is written in 1..3 upload sessions (the same Repository object or a reopened one,
-// compression off / auto / max, one or two packers); every session may store a blob zero, one or two times
+// compression off / auto / fastest / max, one or two packers); every session may store a blob zero, one or two times
 // (storeDuplicate), so a blob can have several copies in ONE pack (different offsets) and copies of different stored
 // length in several packs.  One pack is streamed; it is intact, has flipped bytes in some copies, or becomes
 // unreadable from the k-th download on; every other pack holding a copy of a requested blob is intact, has flipped
@@ -69,7 +69,16 @@ func c43Open(ctx context.Context, res *kit.Result, be backend.Backend, mode Comp
 func c43Repo(t *testing.T, res *kit.Result, emit func(rec c43Rec, sig string, nontrivial bool), r *rand.Rand) {
 	ctx := context.Background()
 	n := kit.Pick(160, 1200)
-	modes := []CompressionMode{CompressionOff, CompressionAuto, CompressionMax}
+	// compression of a session (max is used rarely: setting up its encoder, 64 MiB of tables per CPU, dominates the run time)
+	var modes []CompressionMode
+	for _, m := range []struct {
+		mode   CompressionMode
+		weight int
+	}{{CompressionOff, 20}, {CompressionAuto, 20}, {CompressionFastest, 20 - kit.Pick(1, 3)}, {CompressionMax, kit.Pick(1, 3)}} {
+		for k := 0; k < m.weight; k++ {
+			modes = append(modes, m.mode)
+		}
+	}
 	for i := 0; i < n; i++ {
 		store := kit.NewStore()
 		be := store.Backend("p")
@@ -82,17 +91,29 @@ func c43Repo(t *testing.T, res *kit.Result, emit func(rec c43Rec, sig string, no
 		for k := 0; k < nb; k++ {
 			size := []int{1, 100, 3000, 70000, 300000, 5*c43Unit + 7}[r.Intn(6)]
 			b := &c43RBlob{tok: fmt.Sprintf("b%d", k+1), plain: make([]byte, size)}
-			c43Fill(b.plain, r.Uint64(), r.Intn(2) == 0)
-			b.h = restic.BlobHandle{ID: restic.Hash(b.plain), Type: typ}
+			for unique := false; !unique; {
+				// tiny blobs have few possible contents: the blobs of a repository must be different blobs
+				c43Fill(b.plain, r.Uint64(), r.Intn(2) == 0)
+				b.h = restic.BlobHandle{ID: restic.Hash(b.plain), Type: typ}
+				unique = true
+				for _, o := range blobs {
+					unique = unique && o.h != b.h
+				}
+			}
 			blobs = append(blobs, b)
 		}
 		// upload sessions
-		nsess := 1 + r.Intn(3)
+		nsess := []int{1, 2, 2, 3, 3}[r.Intn(5)]
+		lastMode := CompressionInvalid
 		var repo *Repository
 		saved, ok := 0, true
 		sessDesc := ""
 		for s := 0; s < nsess && ok; s++ {
 			mode := modes[r.Intn(len(modes))]
+			if mode == lastMode {
+				mode = modes[r.Intn(len(modes))] // sessions with different settings are more likely than not
+			}
+			lastMode = mode
 			switch {
 			case s == 0:
 				repo, _ = TestRepositoryWithBackend(t, be, 0, Options{Compression: mode})
